@@ -145,6 +145,28 @@ def run(ctx):
         for n in bad[:1]:
             res.add(Finding('C10', 'C10.c', 'R-SENTINEL', fn.file, fn.qualname, n.lineno, norm(n.test) if hasattr(n, 'test') else norm(n),
                             '`limit` is tested by truthiness: limit=0 means "no limit" here but "nothing" in the sibling cassettes'))
+    # ---------------- every cassette hands the matcher the *decoded* metadata: what was written with the type-preserving encoder is read
+    # back with its decoder (a plain JSON parse shows tuples, dates, decimals, classes as {'py/...': ...} dicts that match nothing)
+    readers = []
+    for c_ in (mem, fil, s3):
+        for m_ in c_.methods.values():
+            fns = [m_] + [f_ for f_ in m_.nested.values() if not isinstance(f_, list)]
+            for f_ in fns:
+                for n in ast.walk(f_.node):
+                    if isinstance(n, ast.Call) and isinstance(n.func, ast.Attribute) and n.func.attr == 'match_against_recorded_metadata' and len(n.args) >= 2:
+                        readers.append((c_, f_, n))
+    for c_, f_, n in readers:
+        from ..loader import expand_locals as _xl
+        md = _xl(f_.node, n.args[1])
+        raw = [x for x in ast.walk(md) if isinstance(x, ast.Call) and norm(x.func).split('.')[-1] in ('loads', 'load') and 'json' in norm(x.func)]
+        raw += [x for x in ast.walk(md) if isinstance(x, ast.Call) and norm(x.func).split('.')[-1] in ('Unpickler', 'restore')]
+        cb.instance('%s: the matcher sees decoded metadata (%s)' % (f_.qualname, norm(md)[:60]), f_.qualname, not raw)
+        cb.evaluations += 1
+        if raw:
+            res.add(Finding('C10', 'C10.b', 'R-SIBLING', f_.file, f_.qualname, raw[0].lineno, norm(raw[0])[:100],
+                            '%s matches the filter against `%s`, the raw JSON of the type-preserving encoding, while the sibling cassettes match '
+                            'against the decoded metadata: recordings whose metadata holds a tuple, date, decimal or class are listed by the other '
+                            'cassettes and missed (or mis-compared) by this one' % (c_.name, norm(raw[0])[:60])))
     # ---------------- the lookup helper reads the properties when the lookup is made (they are plain mutable objects)
     lk = None
     for m_ in repo.modules.values():
